@@ -172,10 +172,11 @@ decreasing_by
   all_goals omega
 
 /-- `walk(all, 'leave', ...)`.  With `recurse=False` the first level of children is put on the stack as FSTs
-(`stack = [a.f for a in stack if a]`).  The final yield of `self` is NOT subject to the `all` check in the code. -/
+(`stack = [a.f for a in stack if a]`).  The final yield of `self` is subject to the `all` check like every other yield
+(`if self_ and (ast := self.a) and check_all_param(self)`, fix of finding C14-F1). -/
 def walkLeave (p : Node → Bool) (back recurse self_ : Bool) (t : Node) : List Nat :=
   leaveLoop p back (bif recurse then (orient back t.kids).map Item.enter else (orient back t.kids).map Item.leave)
-    ++ (if self_ then [t.id] else [])
+    ++ (if self_ && p t then [t.id] else [])
 
 /-- `while stack:` of the `on='both'` branch. -/
 def bothLoop (p : Node → Bool) (back recurse : Bool) : List Item → List (Nat × Bool)
@@ -194,11 +195,11 @@ decreasing_by
   all_goals simp only [weight, weight_append, weight_enter, sizeL_orient, size_eq]
   all_goals omega
 
-/-- `walk(all, 'both', ...)`: `(self, False)` is subject to the `all` check, the final `(self, True)` is not. -/
+/-- `walk(all, 'both', ...)`: `(self, False)` and the final `(self, True)` are both subject to the `all` check. -/
 def walkBoth (p : Node → Bool) (back recurse self_ : Bool) (t : Node) : List (Nat × Bool) :=
   (if self_ && p t then [(t.id, false)] else [])
     ++ bothLoop p back recurse ((orient back t.kids).map Item.enter)
-    ++ (if self_ then [(t.id, true)] else [])
+    ++ (if self_ && p t then [(t.id, true)] else [])
 
 /-! ## locations (zipper): a node together with its chain of parents -/
 structure Frame where
